@@ -8,6 +8,7 @@ import (
 	"os"
 	"strings"
 	"sync"
+	"time"
 
 	"github.com/tyler-sommer/stick"
 	"github.com/tyler-sommer/stick/twig"
@@ -29,10 +30,44 @@ var concTemplates = map[string]string{
 	"h.html": `{{ x matches pat }}{{ y matches '^' ~ n }}{{ n in [1, 2, n] }}{{ n not in 1..3 }}{{ x starts with '<' }}{{ x ends with '>' }}` +
 		`{{ n + 1 - 2 * 3 / 4 // 5 % 6 ** 2 }}{{ n b-and 3 b-or 4 b-xor 1 }}{{ n == 1 or n != 2 and not (n < 3) }}{{ n >= 1 ? "a#{n}b" : {k: n}.k }}` +
 		`{{ [n, x][0] }}{{ x ~ y|raw }}{% set z = n %}{% do z %}{{ n is defined }}`,
+	// three levels of include; the innermost waits at the barrier (scheduler gate) until every caller of the round is inside
+	"j.html": `J{% include 'k.html' %}{{ x }}`,
+	"k.html": `K[{{ x }}]{% include 'l.html' %}`,
+	"l.html": `{{ gate(r) }}<{{ y }}>`,
 	"i.html": `{% use 'a.html' %}{% import 'f' as lib %}{{ lib.m(n) }}{{ block('b') }}{% filter upper %}{{ n }}{% endfilter %}{% verbatim %}{{ v }}{% endverbatim %}`,
 }
 
 var concNames = []string{"a.html", "b.js", "c.css", "d.txt", "e.html", "f", "bad.html", "g.js.twig", "h.html", "i.html"}
+
+// barrier: a blocking user function used as a scheduler gate - gate(r) returns when all n callers of round r have
+// arrived (or after a time-out, so that a caller that failed early cannot block the others for ever).
+type barrier struct {
+	mu sync.Mutex
+	n  int
+	ch map[int]chan struct{}
+	ct map[int]int
+}
+
+func (b *barrier) wait(r int) {
+	b.mu.Lock()
+	if b.ch == nil {
+		b.ch, b.ct = map[int]chan struct{}{}, map[int]int{}
+	}
+	ch, ok := b.ch[r]
+	if !ok {
+		ch = make(chan struct{})
+		b.ch[r] = ch
+	}
+	b.ct[r]++
+	if b.ct[r] == b.n {
+		close(ch)
+	}
+	b.mu.Unlock()
+	select {
+	case <-ch:
+	case <-time.After(3 * time.Second):
+	}
+}
 
 type concResult struct {
 	G     int    `json:"g"`
@@ -45,7 +80,7 @@ type concResult struct {
 
 func concCall(env *stick.Env, tpl, api string, g, round int) concResult {
 	ctx := map[string]stick.Value{"x": fmt.Sprintf("<%d&'\">", g), "y": fmt.Sprintf("%d/*%d*/", round%3, g%4),
-		"n": float64(round%7 + 1), "pat": fmt.Sprintf("^<%d.*r%d", g, round)}
+		"n": float64(round%7 + 1), "pat": fmt.Sprintf("^<%d.*r%d", g, round), "r": float64(round)}
 	res := concResult{G: g, Round: round, Tpl: tpl, API: api}
 	if api == "parse" {
 		tree, err := env.Parse(tpl)
@@ -90,23 +125,37 @@ func init() {
 			Rounds int    `json:"rounds"`
 			Env    string `json:"env"`
 			Seed   int    `json:"seed"`
+			Gate   bool   `json:"gate"` // schedule: every caller of a round is inside Execute (three includes deep) at the same time
 		}
 		if err := json.Unmarshal(raw, &c); err != nil {
 			return nil, err
 		}
 		loader := &stick.MemoryLoader{Templates: concTemplates}
-		mk := func() *stick.Env {
+		mk := func(n int) *stick.Env {
+			bar := &barrier{n: n}
+			gate := func(ctx stick.Context, a ...stick.Value) stick.Value {
+				if len(a) > 0 {
+					bar.wait(int(stick.CoerceNumber(a[0])))
+				}
+				return ""
+			}
 			if c.Env == "core" {
 				e := stick.New(loader)
+				e.Functions["gate"] = gate
 				e.Filters["upper"] = func(ctx stick.Context, v stick.Value, a ...stick.Value) stick.Value {
 					return strings.ToUpper(stick.CoerceString(v))
 				}
 				e.Filters["raw"] = func(ctx stick.Context, v stick.Value, a ...stick.Value) stick.Value { return v }
 				return e
 			}
-			return twig.New(loader)
+			e := twig.New(loader)
+			e.Functions["gate"] = gate
+			return e
 		}
 		pick := func(g, r int) (string, string) {
+			if c.Gate {
+				return "j.html", "execute"
+			}
 			k := (g*7 + r*3 + c.Seed) % len(concNames)
 			api := "execute"
 			if (g+r+c.Seed)%5 == 0 {
@@ -117,7 +166,7 @@ func init() {
 		before, _ := raceReports()
 		// 1. the calls from N goroutines on one shared environment - FIRST, so that nothing the library keeps between
 		//    calls (caches, pools) has been warmed up by a sequential run
-		env := mk()
+		env := mk(c.N)
 		results := make([][]concResult, c.N)
 		var wg sync.WaitGroup
 		start := make(chan struct{})
@@ -137,7 +186,7 @@ func init() {
 		// 2. every call alone, on another environment: the sequential results
 		alone := map[string]concResult{}
 		key := func(r concResult) string { return fmt.Sprintf("%d/%d", r.G, r.Round) }
-		seqEnv := mk()
+		seqEnv := mk(1)
 		for g := 0; g < c.N; g++ {
 			for r := 0; r < c.Rounds; r++ {
 				tpl, api := pick(g, r)
